@@ -717,7 +717,9 @@ PSF_RESULT_OPS = [('model', False, '7x7'), ('model', True, '7x7'), ('resid', Fal
                   ('model', False, '5x9'), ('model', True, '5x9')]
 # read in this fixed order in every distinct state (invariant sweep), compared with a fresh object that was given
 # the last __call__ and the same sweep: covers the result requests after histories of >= 2 calls in the quick tier
-PSF_SWEEP = [('model', False, '7x7'), ('resid', False, '7x7'), ('model', True, '7x7'), ('resid', True, '7x7')]
+# (a render costs ~3 ms and the sweep runs in every distinct state: both methods and both flags once, the one
+# that cannot have been influenced by the other first)
+PSF_SWEEP = [('model', False, '7x7'), ('resid', True, '7x7')]
 PSF_MAX_RESULT_OPS = 2      # result requests per history (a third one cannot see more than the second)
 # constant sky added to every scene of the configurations with a local-background estimator: the estimated local
 # backgrounds are then far from zero (about PSF_SKY, measured: counter psf_localbkg_nonzero_calls), so that an
@@ -742,8 +744,9 @@ PSF_CONFIGS = [
 PSF_CONFIGS_THOROUGH = PSF_CONFIGS + [
     {'cls': 'PSFPhotometry', 'grouper': False, 'localbkg': False, 'xy_bounds': 'none'},
     {'cls': 'PSFPhotometry', 'grouper': True, 'localbkg': False, 'free': 'fwhm'},
-    {'cls': 'IterativePSFPhotometry', 'grouper': False, 'localbkg': True, 'mode': 'all', 'xy_bounds': 'none'},
-    {'cls': 'IterativePSFPhotometry', 'grouper': False, 'localbkg': True, 'mode': 'all', 'free': 'fwhm',
+    # (mode 'all' requires a grouper)
+    {'cls': 'IterativePSFPhotometry', 'grouper': True, 'localbkg': True, 'mode': 'all', 'xy_bounds': 'none'},
+    {'cls': 'IterativePSFPhotometry', 'grouper': True, 'localbkg': True, 'mode': 'all', 'free': 'fwhm',
      'xy_bounds': 'none'},
 ]
 
